@@ -297,8 +297,9 @@ func ruleRingMod(c *Ctx) {
 	if nViews < 6 {
 		anchorFail("ring.mod: expected >=6 ring-view Get/Set sites (slashings, roots, mixes), found %d", nViews)
 	}
-	if nCursor < 2 {
-		anchorFail("ring.mod: expected >=2 values stored through SetNextWithdrawalValidatorIndex in transition code, found %d", nCursor)
+	if nCursor < 1 {
+		// (two stores on the reviewed tree; a single exit that stores either value is the same code)
+		anchorFail("ring.mod: expected a value stored through SetNextWithdrawalValidatorIndex in transition code, found %d", nCursor)
 	}
 }
 
@@ -388,6 +389,54 @@ func ruleChurnFlow(c *Ctx) {
 		if len(capped) == 0 {
 			return
 		}
+		// the cap may be formed in steps (limit := uint64(MAX…); churn = min(churn, limit)): a variable assigned from
+		// an expression that mentions a capped variable carries the cap on, and the variable it was formed from has
+		// done its part there
+		feeds := map[*ast.Ident]bool{}
+		for round := 0; round < 3; round++ {
+			ast.Inspect(fd.Body, func(n ast.Node) bool {
+				as, ok := n.(*ast.AssignStmt)
+				if !ok || len(as.Lhs) != 1 || len(as.Rhs) != 1 {
+					return true
+				}
+				lid, ok := as.Lhs[0].(*ast.Ident)
+				if !ok {
+					return true
+				}
+				var through []*ast.Ident
+				ast.Inspect(as.Rhs[0], func(k ast.Node) bool {
+					if id, ok := k.(*ast.Ident); ok {
+						if _, is := capped[info.ObjectOf(id)]; is && info.ObjectOf(id) != info.ObjectOf(lid) {
+							through = append(through, id)
+						}
+					}
+					return true
+				})
+				if len(through) == 0 {
+					return true
+				}
+				// (only arithmetic / min / max / conversions carry a limit on: not a call that takes it as an argument)
+				carries := true
+				ast.Inspect(as.Rhs[0], func(k ast.Node) bool {
+					if call, ok := k.(*ast.CallExpr); ok && !isConversion(info, call) {
+						if fid, ok := ast.Unparen(call.Fun).(*ast.Ident); !ok || (fid.Name != "min" && fid.Name != "max") {
+							carries = false
+						}
+					}
+					return carries
+				})
+				if !carries {
+					return true
+				}
+				for _, id := range through {
+					feeds[id] = true
+				}
+				if p, had := capped[info.ObjectOf(lid)]; !had || as.Pos() > p {
+					capped[info.ObjectOf(lid)] = as.Pos()
+				}
+				return true
+			})
+		}
 		nFuncs++
 		parents := parentMap(fd.Body)
 		fromQueue := func(e ast.Expr) bool {
@@ -437,7 +486,25 @@ func ruleChurnFlow(c *Ctx) {
 				if !ok || info.ObjectOf(id) != obj || id.Pos() <= defPos+token.Pos(len(id.Name)) && info.Defs[id] != nil {
 					return true
 				}
-				if info.Defs[id] != nil {
+				if info.Defs[id] != nil || feeds[id] {
+					return true
+				}
+				// the capping step itself (limit = min(limit, cap)): the variable on both sides
+				selfStep := false
+				for q := parents[ast.Node(id)]; q != nil; q = parents[q] {
+					if as, ok := q.(*ast.AssignStmt); ok {
+						if len(as.Lhs) == 1 {
+							if lid, ok := as.Lhs[0].(*ast.Ident); ok && info.ObjectOf(lid) == obj {
+								selfStep = true
+							}
+						}
+						break
+					}
+					if _, ok := q.(ast.Stmt); ok {
+						break
+					}
+				}
+				if selfStep {
 					return true
 				}
 				uses++
@@ -495,6 +562,17 @@ func ruleChurnFlow(c *Ctx) {
 				}
 				return true
 			})
+			if good == 0 && uses == 0 {
+				fed := false
+				for id := range feeds {
+					if info.ObjectOf(id) == obj {
+						fed = true
+					}
+				}
+				if fed {
+					continue // formed into another variable, which is judged in its turn
+				}
+			}
 			if good == 0 {
 				c.bad(fname+"@cap-applied", defPos, "%s computes the activation churn cap but never applies it to the activation queue", fname)
 			} else {
